@@ -261,7 +261,7 @@ cleanup:
 static ly_bool
 ly_ctx_ht_err_equal_cb(void *val1_p, void *val2_p, ly_bool UNUSED(mod), void *UNUSED(cb_data))
 {
-    struct ly_ctx_err_rec *err1 = val1_p, *err2 = val2_p;
+    struct ly_ctx_err_rec *err1 = *(struct ly_ctx_err_rec **)val1_p, *err2 = *(struct ly_ctx_err_rec **)val2_p;
 
     return !memcmp(&err1->tid, &err2->tid, sizeof err1->tid);
 }
@@ -321,7 +321,7 @@ ly_ctx_new(const char *search_dir, uint16_t options, struct ly_ctx **new_ctx)
     }
 
     /* initialize thread-specific error hash table */
-    ctx->err_ht = lyht_new(1, sizeof(struct ly_ctx_err_rec), ly_ctx_ht_err_equal_cb, NULL, 1);
+    ctx->err_ht = lyht_new(1, sizeof(struct ly_ctx_err_rec *), ly_ctx_ht_err_equal_cb, NULL, 1);
     LY_CHECK_ERR_GOTO(!ctx->err_ht, rc = LY_EMEM, cleanup);
 
     /* init LYB hash lock */
@@ -1351,9 +1351,10 @@ error:
 static void
 ly_ctx_ht_err_rec_free(void *val_p)
 {
-    struct ly_ctx_err_rec *err = val_p;
+    struct ly_ctx_err_rec *err = *(struct ly_ctx_err_rec **)val_p;
 
     ly_err_free(err->err);
+    free(err);
 }
 
 LIBYANG_API_DEF void
